@@ -124,7 +124,7 @@ func c29IsErr(r *command.ExecuteQueryResponse) string {
 func TestVerif_C29_StoreChild(t *testing.T) {
 	path := os.Getenv("VERIF_C29_CASE")
 	if path == "" {
-		t.Skip("child of TestVerif_C29_Store")
+		return // only runs as a child of TestVerif_C29_Store
 	}
 	result := func(format string, args ...any) {
 		fmt.Printf("\nC29RESULT %s\n", strings.ReplaceAll(fmt.Sprintf(format, args...), "\n", " ;; "))
@@ -313,6 +313,7 @@ func TestVerif_C29_Store(t *testing.T) {
 		self = os.Args[0]
 	}
 	rapid.Check(t, func(rt *rapid.T) {
+		defer c29sGuard(rec)
 		var c c29StoreCase
 		c.Voter = rapid.Bool().Draw(rt, "voter")
 		n := rapid.IntRange(3, 8).Draw(rt, "nops")
@@ -351,13 +352,13 @@ func TestVerif_C29_Store(t *testing.T) {
 		}
 		dir, err := os.MkdirTemp("", "c29store")
 		if err != nil {
-			rt.Skipf("infrastructure: %v", err)
+			c29sBail("infrastructure: %v", err)
 		}
 		defer os.RemoveAll(dir)
 		b, _ := json.Marshal(c)
 		casePath := filepath.Join(dir, "case.json")
 		if err := os.WriteFile(casePath, b, 0o644); err != nil {
-			rt.Skipf("infrastructure: %v", err)
+			c29sBail("infrastructure: %v", err)
 		}
 		ctx, cancel := context.WithTimeout(context.Background(), 240*time.Second)
 		defer cancel()
@@ -390,7 +391,27 @@ func TestVerif_C29_Store(t *testing.T) {
 			rt.Fatalf("%s", rec.Violation("C29/joiner-cannot-decode-log-entry", "a node panicked decoding a log entry: %.300s ;; case: %s", strings.ReplaceAll(tail, "\n", " ;; "), c.canon()))
 		default:
 			rec.Label("child=inconclusive")
-			rt.Skipf("infrastructure: child ended without verdict (%v): %s %.300s", runErr, res, out.String())
+			c29sBail("infrastructure: child ended without verdict (%v): %s %.300s", runErr, res, out.String())
 		}
 	})
+}
+
+// c29sInconclusive is raised for infrastructure trouble inside a case; the
+// case is then counted under the label "inconclusive:infrastructure" instead
+// of being skipped (rapid gives up when most cases are skipped).
+type c29sInconclusive struct{ msg string }
+
+func c29sBail(format string, args ...any) {
+	panic(c29sInconclusive{fmt.Sprintf(format, args...)})
+}
+
+// c29sGuard is deferred at the top of a case.
+func c29sGuard(rec *vstat.Rec) {
+	if r := recover(); r != nil {
+		if _, ok := r.(c29sInconclusive); ok {
+			rec.Label("inconclusive:infrastructure")
+			return
+		}
+		panic(r)
+	}
 }
